@@ -155,3 +155,35 @@ __CPROVER_ensures(!VC_BIT(g_pm0, g_w) ==> !g_seg_purge_w)
 /* not yet due: nothing happens */
 __CPROVER_ensures(!VC_DUE(segment, force) ==> (g_seg_purge_n == 0 && VC_PM(segment) == g_pm0 && VC_CM(segment) == g_cm0 && segment->purge_expire == g_expire0));
 #endif
+
+#ifdef VC_CBMC
+/* ================= commit on demand (C07, C13) ================= */
+static bool mi_segment_commit(mi_segment_t* segment, uint8_t* p, size_t size)
+__CPROVER_requires(VC_SEG_OK(segment) && VC_RANGE_OK(segment, p, size) && VC_OPT_SANE && g_w < 64 && g_os_commit_n == 0)
+__CPROVER_assigns(segment->commit_mask, segment->purge_mask, segment->purge_expire, g_os_commit_n, g_os_commit_p, g_os_commit_size, g_os_commit_ret)
+/* the OS is asked at most once, and exactly when some chunk the range touches is not committed yet; the request covers the range */
+__CPROVER_ensures(g_os_commit_n <= 1)
+__CPROVER_ensures((VC_TOUCH(g_w, g_pstart, size) && !VC_BIT(g_cm0, g_w)) ==> (g_os_commit_n == 1 && __CPROVER_same_object(g_os_commit_p, segment) &&
+                   __CPROVER_POINTER_OFFSET(g_os_commit_p) <= g_w * VC_CS && (g_w + 1) * VC_CS <= __CPROVER_POINTER_OFFSET(g_os_commit_p) + g_os_commit_size))
+__CPROVER_ensures(g_os_commit_n == 1 ==> (__CPROVER_POINTER_OFFSET(g_os_commit_p) <= g_pstart && g_pstart + size <= __CPROVER_POINTER_OFFSET(g_os_commit_p) + g_os_commit_size))
+/* C07: a refused commit is reported and leaves every mask as it was -- nothing is recorded as committed that is not */
+__CPROVER_ensures(!__CPROVER_return_value ==> (g_os_commit_n == 1 && !g_os_commit_ret && VC_CM(segment) == g_cm0 && VC_PM(segment) == g_pm0 && segment->purge_expire == g_expire0))
+__CPROVER_ensures(__CPROVER_return_value ==> (g_os_commit_n == 0 || g_os_commit_ret))
+/* success: every chunk the range touches is committed, no other commit bit changes */
+__CPROVER_ensures(__CPROVER_return_value ==> (VC_BIT(VC_CM(segment), g_w) == (VC_BIT(g_cm0, g_w) || VC_TOUCH(g_w, g_pstart, size))))
+/* C13: success: no chunk the range touches stays scheduled for a purge (it is about to hold live data); other pending chunks stay */
+__CPROVER_ensures(__CPROVER_return_value ==> (VC_BIT(VC_PM(segment), g_w) == (VC_BIT(g_pm0, g_w) && !VC_TOUCH(g_w, g_pstart, size))))
+__CPROVER_ensures((VC_PM(segment) & ~VC_CM(segment)) == 0);
+
+size_t g_seg_commit_n; uint8_t* g_seg_commit_p; size_t g_seg_commit_size; bool g_seg_commit_ret;
+static bool c_seg_commit_rec(mi_segment_t* segment, uint8_t* p, size_t size)
+__CPROVER_requires(1) __CPROVER_assigns(g_seg_commit_n, g_seg_commit_p, g_seg_commit_size, segment->commit_mask, segment->purge_mask, segment->purge_expire)
+__CPROVER_ensures(g_seg_commit_n == __CPROVER_old(g_seg_commit_n) + 1 && g_seg_commit_p == p && g_seg_commit_size == size && __CPROVER_return_value == g_seg_commit_ret);
+
+/* true => the range is committed: either the whole segment is (full mask, nothing pending) or the on-demand commit succeeded */
+static bool mi_segment_ensure_committed(mi_segment_t* segment, uint8_t* p, size_t size)
+__CPROVER_requires(VC_SEG_OK(segment) && VC_RANGE_OK(segment, p, size) && g_seg_commit_n == 0)
+__CPROVER_assigns(g_seg_commit_n, g_seg_commit_p, g_seg_commit_size, segment->commit_mask, segment->purge_mask, segment->purge_expire)
+__CPROVER_ensures((g_cm0 == ~(size_t)0 && g_pm0 == 0) ==> (__CPROVER_return_value && g_seg_commit_n == 0))
+__CPROVER_ensures(!(g_cm0 == ~(size_t)0 && g_pm0 == 0) ==> (g_seg_commit_n == 1 && g_seg_commit_p == p && g_seg_commit_size == size && __CPROVER_return_value == g_seg_commit_ret));
+#endif
